@@ -34,7 +34,7 @@ static long vp_bev_now = 100;
 
 /* ---- per-event records ---------------------------------------------------------------------------------------------- */
 #ifndef VP_NEV
-#define VP_NEV 6
+#define VP_NEV 4
 #endif
 struct vp_evrec { struct event *ev; int adds, adds_tv, dels, rmtimer, assigns; long armed_at; };
 static struct vp_evrec vp_evrec[VP_NEV];
@@ -146,13 +146,9 @@ int event_deferred_cb_schedule_(struct event_base *base, struct event_callback *
 }
 void event_deferred_cb_cancel_(struct event_base *base, struct event_callback *cb)
 {
-	int i, j;
 	(void)base;
-	if (!(cb->evcb_flags & (EVLIST_ACTIVE | EVLIST_ACTIVE_LATER))) return;
+	/* lazy deletion: the queue entry stays, vp_run_deferred() skips entries that are no longer marked active */
 	cb->evcb_flags &= ~(EVLIST_ACTIVE | EVLIST_ACTIVE_LATER);
-	for (i = 0, j = 0; i < VP_NDEFER; i++)
-		if (i < vp_defq_n && vp_defq[i] != cb) vp_defq[j++] = vp_defq[i];
-	vp_defq_n = j;
 }
 /* the harness dispatches (no indirect call: the candidates are named in the harness) */
 static void vp_deferred_dispatch(struct event_callback *cb);
@@ -163,7 +159,7 @@ static int vp_run_deferred(void)
 	for (i = 0; i < VP_NDEFER; i++) q[i] = i < n ? vp_defq[i] : NULL;
 	vp_defq_n = 0;
 	for (i = 0; i < VP_NDEFER; i++)
-		if (i < n) {
+		if (i < n && (q[i]->evcb_flags & (EVLIST_ACTIVE | EVLIST_ACTIVE_LATER))) {
 			q[i]->evcb_flags &= ~(EVLIST_ACTIVE | EVLIST_ACTIVE_LATER);
 			vp_deferred_dispatch(q[i]);
 			ran++;
